@@ -219,6 +219,74 @@ CLAIMS = {
         "cannot decide; documented in DESIGN.md §3, neither reported nor suppressed by this check.",
         ref="DESIGN.md §5 C20",
     ),
+    "C07": dict(
+        category="other",
+        technique="forwarding-shape rules over resolved MIR event skeletons (calls with argument provenance), must-fact "
+        "analysis of the edges into None/Some returns, sibling cross-check of the 11 &/&mut accessor pairs",
+        text="Static decision that every view is derived from one of two primitives with pass-through arguments (DERIV1: "
+        "nth_*/Index -> get(_mut); iter/range -> Iter::new -> as_slices; iter_mut/range_mut -> IterMut::new -> "
+        "as_mut_slices; to_vec/Debug/Hash/PartialOrd/Ord/&IntoIterator -> iter), that get/front/back (and pop/remove) "
+        "answer None only over an edge establishing N==0, size==0 or index>=size and Some only under index<size / size>0 "
+        "(NONE1), and that each mutable accessor performs the same steps on the same operands as its shared twin (TWIN "
+        "x11). Not decided: agreement of the two primitives with each other, make_contiguous's result, range selection.",
+        note="[twin]/shape rules: a behaviour-preserving rewrite of a forwarder or of one twin would also be reported. "
+        "Distinctness of mutable references: borrow checker outside unsafe + closed table of unsafe producers (C03).",
+        ref="DESIGN.md §5 C07",
+    ),
+    "C08": dict(
+        category="other",
+        technique="sibling cross-check (Iter vs IterMut x10, helper pairs x3), mirror cross-check (next vs next_back under "
+        "right<->left), shape rules for len/size_hint/clone/default/IntoIter, bound-translation arm analysis",
+        text="Static decision that Iter and IterMut (and the slice_take helper pairs) are the same algorithm modulo "
+        "mutability, that next and next_back are mirror images, that len counts both remaining slices and size_hint is "
+        "(len, Some(len)), that next takes from right then left and next_back from left then right, that Iter::clone copies "
+        "both fields in place and default iterators are two empty slices, that IntoIter is exactly pop_front/pop_back/len "
+        "of its only field, and that every RangeBounds form is translated as documented by the single validation function. "
+        "Not decided: the selection arithmetic of advance_front_by/advance_back_by and element order (values).",
+        note="[twin] rules. A bug present identically in both twins (or symmetric in next/next_back) is not visible to "
+        "this check.",
+        ref="DESIGN.md §5 C08",
+    ),
+    "C12": dict(
+        category="other",
+        technique="constructor shape + storage-read scan, who-may tables (unsafe/bit-copy/forget) over the conversion "
+        "functions, forwarding-shape rules for the clone paths, must-pass-through in From<[T;M]>, armed-local rule",
+        text="Static decision that new/default/boxed establish the empty header and never read storage; that clone, "
+        "clone_from, to_vec, from_iter, both extends, IntoIter::new, both into_iter and default are safe code over T "
+        "(type system gives independence of source and result); that they obtain elements only via iter().cloned() resp. "
+        "feed every item to push_back, and clone_from clears first; that From<[T;M]> copies out, destroys the rest and "
+        "disarms the source on every path with header start=0, size in {M,N} each <= N, and never targets an armed local. "
+        "Not decided: which array part is kept; order (inherits push_back, C01).",
+        note="Shape rules on small forwarding functions; a behaviour-preserving rewrite would be reported.",
+        ref="DESIGN.md §5 C12",
+    ),
+    "C13": dict(
+        category="other",
+        technique="read-set analysis of the observer impls (no start/items/capacity), resolved-callee chain analysis of the "
+        "forwarding PartialEq impls (through core's &A == &B), shape rules for cmp/hash/fmt, operand-root rule for the base eqs",
+        text="Static decision that comparison/ordering/hash/Debug impls read buffer state only through len, as_slices and "
+        "iter — never start, items or the capacity — so layout can influence them only through as_slices' split point; "
+        "ordering = std's Iterator::partial_cmp/cmp of the two iter()s; hash = length once + one element hash per iter() "
+        "item (no segment-wise slice hashing); Debug = debug_list().entries(self).finish(); the five forwarding PartialEq "
+        "impls end, through any chain, in the base slice impl without recursion; the base impls test lengths first and "
+        "compare only sub-slices of the contents. Not decided: the three-way segment alignment arithmetic of buffer-vs-"
+        "buffer equality (values) — explicitly partial.",
+        note="The historically buggy alignment arithmetic (offsets x, y) is outside this family's reach.",
+        ref="DESIGN.md §5 C13",
+    ),
+    "C14": dict(
+        category="other",
+        technique="shape rules over resolved MIR event skeletons of the five std::io methods, return-site variant analysis, "
+        "must guard facts at fill_buf's returns, REQUIRES propagation (MOD1)",
+        text="Static decision that write/flush/read/fill_buf can only return Ok (the `?` in read propagates only from the "
+        "infallible &[u8] reader), write forwards the unmodified input once to extend_from_slice and reports src.len(), "
+        "read copies front->dst then back->dst[r1..] of one as_slices() call, removes exactly r1+r2 from the front after "
+        "both and returns that sum with no other mutation, fill_buf returns front iff it is non-empty else back, consume "
+        "drains ..min(amt,len), and no zero-capacity modulus/index is reachable from the five entries. Not decided: which "
+        "bytes extend_from_slice keeps (C01), non-underflow of len-count, non-emptiness of fill_buf for a non-empty buffer.",
+        note="Shape rules on small methods; trusted: std's <&[u8] as Read>::read.",
+        ref="DESIGN.md §5 C14",
+    ),
 }
 
 
